@@ -61,6 +61,8 @@ def gen_params(rng, stratum):
         "het_prob": rng.choice([0.6, 0.8, 1.0]),
     }
     if stratum == "B":
+        # thin coverage: a single read that ends at / inside a variant is then the only evidence linking it
+        p["depth"] = rng.choice([1, 1, 2, 4, 8, 15, 30])
         p["edge_frac"] = rng.choice([0.0, 0.3, 0.6])
         p["edge_ins"] = rng.choice([0.0, 0.5, 1.0]) if use_ref else 0.0
     opts = {
